@@ -9,5 +9,6 @@ CONSTANTS
   NoWait = FALSE
   MaxWait = 0
   Batch = 3
+  BigUncharged = FALSE
 INVARIANT RateBound
 CHECK_DEADLOCK FALSE
